@@ -434,4 +434,32 @@ theorem mem_nodup_unique : ∀ (t : Table) (k : Name) (i j : FnInfo),
   exact Option.some.inj h2
 
 
+/-! ### counting rejecting blocks; the exit status -/
+
+/-- the number of rejecting blocks among the tests that are run -/
+def failureCount (tests : List TestCase) : Nat := (tests.filter (fun t => !accepts t)).length
+
+theorem failureCount_pos (tests : List TestCase) :
+    0 < failureCount tests ↔ ∃ t ∈ tests, t.func.info.verdict ≠ .Accept () := by
+  unfold failureCount
+  rw [List.length_pos_iff_exists_mem]
+  constructor
+  · rintro ⟨t, ht⟩
+    obtain ⟨hm, hp⟩ := List.mem_filter.mp ht
+    exact ⟨t, hm, by simpa [accepts] using hp⟩
+  · rintro ⟨t, hm, hp⟩
+    exact ⟨t, List.mem_filter.mpr ⟨hm, by simpa [accepts] using hp⟩⟩
+
+theorem failureCount_replicate (acc rej : TestCase)
+    (hacc : acc.func.info.verdict = .Accept ()) (hrej : rej.func.info.verdict = .Reject ()) (a n : Nat) :
+    failureCount (List.replicate a acc ++ List.replicate n rej) = n := by
+  simp [failureCount, List.filter_append, accepts, hacc, hrej]
+
+@[simp] theorem failed_SUCCESS : ExitCode.SUCCESS.failed = false := rfl
+@[simp] theorem failed_FAILURE : ExitCode.FAILURE.failed = true := rfl
+/-- a literal status (`ExitCode::from(k)`): the proofs below do not depend on WHICH non-zero
+    status a failure exits with -/
+@[simp] theorem failed_ofStatus (n : Nat) : (ExitCode.ofStatus n).failed = (n % 256 != 0) := rfl
+
+
 end RotoV.TRL
